@@ -103,3 +103,11 @@ _C08U = Unit("c08_scope", "harness/c08_scope.cpp", cfg="d17", max_size=140, pin=
              quick=(35, 400000), thorough=(480, 20000000))
 PROPS["C08"] = dict(level="exploration", units=[_C08U], assumptions=_DS_ASSUME)
 PROPS["C09"] = dict(level="exploration", units=[_C08U], assumptions=_DS_ASSUME)
+
+PROPS["C07"] = dict(level="exploration",
+    units=[Unit("c07_timers", "harness/c07_timers.cpp", cfg="d17", max_size=120, pin=True, shards=8,
+                quick=(25, 400000), thorough=(400, 20000000)),
+           Unit("c07_clock", "harness/c07_clock.cpp", cfg="p17", max_size=60,
+                quick=(10, 600000), thorough=(120, 30000000))],
+    assumptions=_DS_ASSUME + ["virtual time: std::chrono::steady_clock inside libunifex is the deterministic scheduler's clock",
+                              "io_epoll_context / io_uring_context timers (real kernel time) are exercised by the C14 check's units"])
